@@ -862,3 +862,4 @@ Proof.
   destruct (specialize_keeps_fill ms segs) as [out [H1 H2]].
   exists segs, out. split; [rewrite <- (generalize_all_sound cs g Eg); exact Es|]. split; assumption.
 Qed.
+
